@@ -25,7 +25,9 @@ def seeds():
         r = ', '.join('`%s`' % x for x in rules[:3]) + (' (+%d)' % (len(rules) - 3) if len(rules) > 3 else '')
         hist = m.get('history', '')
         fr = m.get('first_run')
-        if not hist and fr is not None and fr.get('exit') != 1: hist = 'first run: missed; rule(s) added, then reported'
+        if not hist and fr is not None and fr.get('exit') != 1:
+            hist = 'first run: missed; rule(s) added, then reported' if ch.get('exit') == 1 else 'first run: missed'
+        if m.get('left_open'): hist += ' LEFT OPEN: ' + m['left_open']
         if m.get('round'): hist = ('round %s. ' % m['round']) + hist
         out.append('| %s | %s | %s | %s |' % (sid, first_line(d + '/patch.diff').replace('rust/ommx/src/', ''), r if ch.get('exit') == 1 else '**missed**', hist))
     return '\n'.join(out)
@@ -75,9 +77,20 @@ def rounds():
     return '\n'.join(out)
 
 
+def left_open():
+    out = ['| change | kind | verdict today | why it is left open |', '|---|---|---|---|']
+    for sub, kind in (('refactors', 'behaviour-preserving refactoring'), ('seeded', 'property-breaking seed')):
+        for d in sorted(glob.glob('%s/%s/C*-*' % (V, sub))):
+            if not os.path.exists(d + '/meta.json'): continue
+            m = json.load(open(d + '/meta.json'))
+            if not m.get('left_open'): continue
+            out.append('| %s | %s | %s | %s |' % (os.path.basename(d), kind, '**false alarm**' if sub == 'refactors' else '**missed**', m['left_open']))
+    return '\n'.join(out)
+
+
 def main():
     p = V + '/DESIGN.md'; s = open(p).read()
-    for key, fn in (('SEEDS', seeds), ('REFACTORS', refactors), ('ROUNDS', rounds)):
+    for key, fn in (('SEEDS', seeds), ('REFACTORS', refactors), ('ROUNDS', rounds), ('OPEN', left_open)):
         a = '<!-- %s:BEGIN -->' % key; b = '<!-- %s:END -->' % key
         if a in s and b in s:
             s = s[:s.index(a) + len(a)] + '\n' + fn() + '\n' + s[s.index(b):]
